@@ -90,14 +90,14 @@ def extra_rustc(gen, nq, nt, key_of=None):
     return run
 
 
-def extra_twins(nq, nt, per=120):
-    """C12: the same definition once with #[derive_ex(..)], once with #[derive(..)]; behaviour compared in-program"""
+def extra_programs(genfn, nq, nt, per=120, what='the compiled program observes behaviour that differs from the documented behaviour'):
+    """programs with an in-program oracle (std-derived twin, field-wise reference, call log): every line must be `<case> ok <n>`"""
     import concurrent.futures as cf
     import subprocess
 
     def one(args):
         seed, start, count, tag = args
-        src, cases = l2gen.gen_c12_program(seed, start, count)
+        src, cases = genfn(seed, start, count)
         base = f'{vlib.WORK}/l2/{tag}_twin_{start}'
         os.makedirs(os.path.dirname(base), exist_ok=True)
         open(base + '.rs', 'w').write(src)
@@ -151,14 +151,69 @@ def extra_twins(nq, nt, per=120):
                             mod = parts[0]
                             item = next((c['item'] for c in res['cases'] if c['mod'] == mod), '')
                             violation(f'twin-{mod}', dict(
-                                what='derive_ex and the standard derive behave differently on the same definition and values',
+                                what=what,
                                 property=prop, observation=line, item=item, program=res['src']))
                 if not fails and 'compile_error' not in res:
                     try:
                         os.remove(res['src'])
                     except OSError:
                         pass
-        return dict(l2=dict(twin_types=types, comparisons=checks, differences=fails, distribution=dist, seed=seed))
+        return dict(l2_programs=dict(types=types, comparisons=checks, differences=fails, distribution=dist, seed=seed))
+    return run
+
+
+def extra_twins(nq, nt, per=120):
+    """C12: the same definition once with #[derive_ex(..)], once with #[derive(..)]; behaviour compared in-program"""
+    return extra_programs(l2gen.gen_c12_program, nq, nt, per,
+                          what='derive_ex and the standard derive behave differently on the same definition and values')
+
+
+def extra_verdicts(genfn, nq, nt):
+    """accept / refuse verdicts of rustc against a reference rule: case['expect_ok'], or case['expect_error'] (must be refused
+    with a message containing that text)"""
+    def run(prop, tier, seed, violation, known, known_hit, notes):
+        ok, log = l2.build_pm()
+        if not ok:
+            violation('pm-build', dict(what='the proc-macro does not build', log=log), no_input=True)
+            return {}
+        n = nq if tier == 'quick' else nt
+        cases = [genfn(seed, i) for i in range(n)]
+        res = l2.rustc_verdicts(prop + 'v', cases)
+        dist = {}
+        nbad = 0
+        for c, rc, diags, path in res:
+            for k, v in c.get('desc', {}).items():
+                dist[f'{k}={v}'] = dist.get(f'{k}={v}', 0) + 1
+            accepted = rc == 0
+            if 'expect_error' in c:
+                good = (not accepted) and any(c['expect_error'] in d['message'] for d in diags)
+                want = 'refused by derive_ex with: ' + c['expect_error']
+            else:
+                good = accepted == c['expect_ok'] and (accepted or any('Eq' in d['message'] for d in diags))
+                want = 'accepted' if c['expect_ok'] else 'refused (a compared component is not Eq)'
+            if good:
+                try:
+                    os.remove(path)
+                except OSError:
+                    pass
+                continue
+            nbad += 1
+            if nbad <= 5:
+                violation(f'verdict-{nbad}', dict(
+                    what='rustc\'s verdict on this program differs from the reference rule of the property',
+                    property=prop, case=c['id'], item=c.get('item'), expected=want, accepted=accepted,
+                    diagnostics=diags[:4], program=path))
+        return dict(l2_verdicts=dict(programs=len(res), wrong=nbad, distribution=dist, seed=seed,
+                                     sample_programs=[c.get('item') for c in cases[:3]]))
+    return run
+
+
+def extras(*fs):
+    def run(prop, tier, seed, violation, known, known_hit, notes):
+        out = {}
+        for f in fs:
+            out.update(f(prop, tier, seed, violation, known, known_hit, notes) or {})
+        return out
     return run
 
 
@@ -233,6 +288,7 @@ PROPS = {
     'C17': dict(
         theorems=[(CMP + 'C17', ['DX.eq_assert_exact'])],
         l1=[('cmp1', 'all', 'all'), ('cmpN', 4000, 200000)],
+        extra=extra_verdicts(l2gen.gen_c17_case, 480, 6000),
         labels=r':Eq(#1)?$',
     ),
 }
@@ -242,30 +298,35 @@ PROPS.update({
         theorems=[(CMP + 'C07', ['DX.clone_fieldwise', 'DX.clone_struct_fields', 'DX.clone_enum_fields',
                                  'DX.clone_from_same_variant', 'DX.clone_from_other_variant', 'DX.clone_from_spec'])],
         l1=[('basic', 4000, 150000), ('all', 3000, 100000)],
+        extra=extras(extra_programs(l2gen.gen_c07_program, 320, 6400, per=40, what='clone / clone_from differ from the documented field-wise behaviour (value, calls made on the fields, or the source changed)'), extra_twins(360, 6000)),
         labels=r':Clone$',
     ),
     'C08': dict(
         theorems=[('DeriveExModel.Props.Tables', ['DX.trait_table_model', 'DX.trait_table_complete']), (CMP + 'C08', ['DX.forms_emitted', 'DX.ops_one_impl_per_form', 'DX.bin_fieldwise', 'DX.assign_fieldwise',
                                  'DX.un_fieldwise', 'DX.ops_fields', 'DX.forms_agree'])],
         l1=[('ops', 4000, 150000), ('all', 3000, 100000)],
+        extra=extra_programs(l2gen.gen_c08_program, 480, 9600, per=60, what='an operator derived from the struct definition does not act field-wise (value, operand order, reference form, call count or a borrowed operand changed)'),
         labels=r':(Add|BitAnd|BitOr|BitXor|Div|Mul|Rem|Shl|Shr|Sub|Neg|Not)(Assign)?(#\d)?$',
     ),
     'C09': dict(
         theorems=[('DeriveExModel.Props.Tables', ['DX.trait_table_model', 'DX.trait_table_complete']), (CMP + 'C09', ['DX.clone_exactly_when_needed', 'DX.binary_forwards_to_base', 'DX.assign_is_op',
                                  'DX.op_from_assign', 'DX.emitted_binary_forms', 'DX.emitted_forms', 'DX.carries_over'])],
         l1=[('impl', 6000, 200000)],
+        extra=extra_programs(l2gen.gen_c09_program, 640, 12800, per=80, what='an operator impl derived from the user impl does not forward faithfully (value, operand order, number of calls or clones)'),
         labels=r'^impl|^err$',
     ),
     'C10': dict(
         theorems=[(CMP + 'C10', ['DX.debug_trace_is_std', 'DX.transparent_delegates', 'DX.two_transparent_rejected',
                                  'DX.debug_struct_trace'])],
         l1=[('basic', 4000, 150000), ('all', 3000, 100000)],
+        extra=extras(extra_programs(l2gen.gen_c10_program, 600, 12000, what='Debug output differs from the standard derive on the type with its ignored fields deleted / from the transparent field alone'), extra_twins(360, 6000)),
         labels=r':Debug$',
     ),
     'C11': dict(
         theorems=[(CMP + 'C11', ['DX.defaultCtorArgs_vals', 'DX.into_iff_strlit_or_path', 'DX.default_struct_follows_doc',
                                  'DX.default_enum_rejections', 'DX.default_enum_follows_doc'])],
         l1=[('basic', 4000, 150000), ('all', 3000, 100000)],
+        extra=extras(extra_programs(l2gen.gen_c11_program, 800, 16000, per=200, what='default() does not return the documented value'), extra_verdicts(l2gen.gen_c11_reject_case, 24, 200), extra_twins(360, 6000)),
         labels=r':Default$',
     ),
     'C12': dict(
@@ -330,6 +391,7 @@ PROPS.update({
     'C18': dict(
         theorems=[(CMP + 'C18', ['DX.arity_rejected', 'DX.deref_is_field_place'])],
         l1=[('ops', 4000, 150000)],
+        extra=extras(extra_programs(l2gen.gen_c18_program, 240, 4800, what='Deref / DerefMut do not target the single field itself'), extra_verdicts(l2gen.gen_c18_reject_case, 96, 1000)),
         labels=r':Deref(Mut)?$',
     ),
     'C19': dict(
